@@ -63,7 +63,7 @@ def run(tier, seed, only=None):
            core.pop_names_from_kwargs, core.AccessRule.__init__, core.AccessRule.exclude, core.get_user_groups, core.get_user_roles,
            core.get_object_labels, core.user_groups_getter, core.user_roles_getter, core.obj_labels_getter,
            core.Database.set_perms_for, core.Database.to_json, core.Database._get_schema_dict)
-    T = 150 if tier == 'quick' else 900
+    T = 240 if tier == 'quick' else 900
     specs = [dict(module='checks.h_c34', fn=f, cond_timeout=T, path_timeout=T / 2, setup='setup') for f in h.HARNESSES]
     if only: specs = [s for s in specs if only in s['fn']]
     rep.bounds = dict(BOUNDS, tier=tier)
